@@ -64,8 +64,10 @@ def check_join(ctx, backend, base, r, literal=None, via=None):
         ctx.case(False, label="skipped:rejected-by-constructor")
         return
     bd, rd = comps(B), comps(R)
-    if not bd["scheme"]:
-        # RFC resolution presupposes an absolute base; scheme-less bases are outside the statement (urllib resolves them as a convention)
+    schemeless = not bd["scheme"]
+    if schemeless and not (rd["scheme"] or rd["authority"] is not None or rd["path"].startswith("/")):
+        # RFC resolution presupposes an absolute base; for a scheme-less base only the branches of 5.2.2 that do not merge with the base
+        # path are compared (reference with a scheme, with an authority, or with a rooted path) - the rest is urllib's convention
         ctx.case(False, label="skipped:scheme-less-base")
         return
     rpath = rd["path"] if rd["authority"] is None else ""
@@ -78,7 +80,7 @@ def check_join(ctx, backend, base, r, literal=None, via=None):
         ctx.check(False, "join() raised", observed=e, expected="a URL", entry="join")
         return
     got = norm(comps(J))
-    if bd["scheme"] not in REL or (rd["scheme"] and rd["scheme"] != bd["scheme"]):
+    if (bd["scheme"] not in REL and not schemeless) or (rd["scheme"] and rd["scheme"] != bd["scheme"]):
         exp = norm(rd)
         ctx.check(got == exp and str(J) == str(R), "reference with another scheme / non-relative base scheme must be returned unchanged",
                   observed=got, expected=exp, entry="unchanged")
@@ -141,7 +143,9 @@ def base_strategy():
     path_segs = st.lists(st.sampled_from(SEGS), max_size=5)
 
     def mk(scheme, auth, segs, trailing, q, f, rooted):
-        s = scheme + ":"
+        s = scheme + ":" if scheme else ""
+        if not scheme and auth is None and segs and ":" in segs[0]:
+            segs = ["x"] + list(segs)
         if auth is not None:
             s += "//" + auth
             p = "".join("/" + x for x in segs) + ("/" if trailing and segs else "")
@@ -158,7 +162,7 @@ def base_strategy():
             s += "#" + f
         return s
 
-    return st.builds(mk, st.sampled_from(["http", "https", "ftp", "file", "ws", "wss", "sftp", "svn+ssh", "rtsp", "HTTP", "git", "rsync", "nfs", "telnet", "mailto"]),
+    return st.builds(mk, st.sampled_from(["http", "https", "ftp", "file", "ws", "wss", "sftp", "svn+ssh", "rtsp", "HTTP", "git", "rsync", "nfs", "telnet", "mailto", "", ""]),
                      st.one_of(st.sampled_from(AUTHS), st.sampled_from(AUTHS), st.none()), path_segs, st.booleans(),
                      st.sampled_from(QUERIES), st.sampled_from(FRAGS), st.booleans())
 
